@@ -2,7 +2,8 @@
 (* Enumeration of ALL line sequences over the alphabet of KeyParser.tla that  *)
 (* the replay driver feeds to the real stir::KeyParser (part a of C17):       *)
 (* every sequence of at most MaxFull lines, plus the sequences of up to       *)
-(* MaxLen lines whose inner lines are among 11 core lines.               A sequence is extended     *)
+(* MaxLen lines whose inner lines are among 11 core lines.  A sequence is    *)
+(* extended                                                                   *)
 (* only while the parser would read on; after it has stopped ONE more line is *)
 (* appended (it must not be read).  Written as ndjson to the file named by    *)
 (* the environment variable GEN.  The enumeration can be split over NParts     *)
